@@ -1,0 +1,12 @@
+//go:build verif
+// +build verif
+
+package cluster
+
+// VerifGetIndex exposes getIndex to the verification harness in /verif (read-only accessor, build tag
+// "verif"; nothing else in this package refers to it): the value returned and the value left in the cell.
+func VerifGetIndex(index int64, n int64) (int64, int64) {
+	i := index
+	r := getIndex(&i, n)
+	return r, i
+}
